@@ -463,6 +463,11 @@ def r10_nullspace_preserved(ctx):
         a0, a1 = U(c.args[0]), U(c.args[1])
         ok = (("reactants" in a0 and "products" not in a0) or a0 == "r") and (("products" in a1 and "reactants" not in a1) or a1 == "p")
         ctx.check(ok, a, "recursion-keeps-sides:%d" % i, "a recursive attempt must pass the (reduced) reactants first and products second; found (%s, %s)" % (a0[:40], a1[:40]), node=c)
+        # ... and solve the reduced problem in the caller's mode with the caller's species: these arguments are forwarded unchanged
+        kws = {k.arg: U(k.value) for k in c.keywords if k.arg}
+        for nm in ("underdetermined", "substances", "substance_factory"):
+            ctx.check(kws.get(nm) == nm and len(c.args) == 2, a, "recursion-forwards:%s:%d" % (nm, i),
+                      "a recursive attempt must be made with %s=%s (the caller's); found %s" % (nm, nm, kws.get(nm, "<not passed: the default>")), node=c)
     for nm, src in (("r", "set(reactants)"), ("p", "set(products)")):
         ds = [st for st in walk_shallow(fn) if isinstance(st, ast.Assign) and U(st.targets[0]) == nm]
         ctx.check(len(ds) == 1 and U(ds[0].value) == src, a, "trial-side:%s" % nm, "`%s` must start as %s" % (nm, src), node=fn)
@@ -478,7 +483,7 @@ RULES = [
     Rule("C02-R7", r7_duplicates, 5, "duplicate search cannot fall through"),
     Rule("C02-R8", r8_ilp, 5, "ILP formulation"),
     Rule("C02-R9", r9_presence_precheck, 4, "presence pre-check: non-zero (not positive) amount counts as present"),
-    Rule("C02-R10", r10_nullspace_preserved, 14, "solution vector only rescaled as a whole / re-parametrised; switch rebinding; defaults; recursion keeps sides"),
+    Rule("C02-R10", r10_nullspace_preserved, 20, "solution vector only rescaled as a whole / re-parametrised; switch rebinding; defaults; recursion keeps sides"),
 ]
 
 _POS = '    if any(x.is_negative for x in sol):\n        raise ValueError("Unable to balance: species given on the wrong side.")\n'
@@ -511,6 +516,8 @@ MUTANTS.append(Mutant("sol-shifted-not-scaled", [(CHEM, "sol = sol.func(*[arg / 
 MUTANTS.append(Mutant("sol-entry-dropped", [(CHEM, "MutableDenseMatrix([e / fact for e in sol]).reshape(len(sol), 1)", "MutableDenseMatrix([e / fact for e in sol if e != 1]).reshape(len(sol), 1)")], "C02-R10", "sol-def"))
 MUTANTS.append(Mutant("switch-rebound-for-every-mode", [(CHEM, "if underdetermined is integer_one:", "if underdetermined is not integer_one:")], "C02-R10", "switch-rebound"))
 MUTANTS.append(Mutant("recursion-swaps-sides", [(CHEM, "                        [sp for sp in reactants if sp != dupl],\n                        [sp for sp in products if sp != dupl],", "                        [sp for sp in products if sp != dupl],\n                        [sp for sp in reactants if sp != dupl],")], "C02-R10", "recursion-keeps-sides"))
+MUTANTS.append(Mutant("recursion-drops-mode", [(CHEM, "                        parametric_symbols=parametric_symbols,\n                        underdetermined=underdetermined,\n", "                        parametric_symbols=parametric_symbols,\n")], "C02-R10", "recursion-forwards:underdetermined"))
+MUTANTS.append(Mutant("recursion-default-substances", [(CHEM, "                        [sp for sp in products if sp != dupl],\n                        substances=substances,\n", "                        [sp for sp in products if sp != dupl],\n")], "C02-R10", "recursion-forwards:substances"))
 MUTANTS.append(Mutant("given-substances-ignored", [(CHEM, "    if substances is None:\n        substances = OrderedDict(\n            [(k, substance_factory(k)) for k in chain(reactants, products)]", "    if substances is not None:\n        substances = OrderedDict(\n            [(k, substance_factory(k)) for k in chain(reactants, products)]")], "C02-R10", "default-substances"))
 TWINS.append(Twin("sol-matrix-division", [(CHEM, "sol = sol.func(*[arg / cd for arg in sol.args])", "sol = sol.func(*[arg * (1 / cd) for arg in sol.args])")]))
 MUTANTS.append(Mutant("positivity-guard-reactants-only", [(CHEM, _POS, "    for sk_, coeff_ in zip(reactants, sol):\n        if coeff_.is_negative:\n            raise ValueError(\"wrong side\")\n")], "C02-R1", "covers-all"))
